@@ -17,7 +17,7 @@ CLAIM = {
              "for every non-directory engine the final name is only ever (re)written by os.replace/os.rename from a temporary whose save completed before, and no removal of the final name is feasible; (R3) check_bad reaches the removal of a "
              "result on both the unreadable path (the load is inside a handler catching every Exception) and the wrong-length path whenever delete_bad, and reports its id; (R4) crop files are published by write-temporary, close, rename, so a "
              "kill leaves under a final name only complete files, and (R5) directory listings never count a leftover temporary -- so file existence is a sound 'this file is complete' criterion for the documented recovery. "
-             "Not decided: the global claim that recovery from every crash state converges to the exact results is a reachability property over disk states (model-checking family); these rules are its structural preconditions."),
+             "(R2 also reports moving the data file aside before its replacement is in place; R4 accepts tempfile.mkstemp writers and reports a unique name component that comes from a memoised helper.) Not decided: the global claim that recovery from every crash state converges to the exact results is a reachability property over disk states (model-checking family); these rules are its structural preconditions."),
     "note": "Trusted base: POSIX rename atomicity; a proper prefix of a pickle stream never unpickles (no STOP opcode); xarray/pandas writers write the whole object to the given path before returning. The zarr (directory store) branch of Harvester.save_full_ds is a listed known finding.",
     "technique": "static analysis: effect-sequence rules over CFGs with exception edges, partitioned by engine valuation; handler reachability; who-may-write / listing-filter rules",
 }
